@@ -2,7 +2,8 @@
 
 Binding B1: TLC enumerates every interleaving of {viewer polls (fresh ack / repeated ack after a
 lost response), simulator answers with 1-2 events of several shapes (untemplated with a map / array / string / undef /
-integer body, templated with a complete body, an omitted block or an empty block, region-announcing),
+integer body, templated with a complete body, an omitted block or an empty block, one the proxy's own handling
+raises on, region-announcing incl. a template-complete CrossedRegion),
 addons swallow any subset of the plain events, addon injects, non-200 answer, region teardown}
 up to the depth bound.  Every edge is replayed into a fresh real Session / ProxiedRegion behind the
 real MITMProxyEventManager._handle_request / _handle_response (mitmproxy flows, state-serialised
@@ -120,6 +121,20 @@ class World:
         elif k == "ES":
             ev = LLSDMessageSerializer().serialize(Message(
                 "EnableSimulator", Block("SimulatorInfo", Handle=_handle(x), IP=ADDRS[x][0], Port=ADDRS[x][1])), True)
+        elif k == "CR":
+            # template-complete: CrossedRegion carries the simulator in RegionData AND has an Info block of its own
+            from hippolyzer.lib.base.datatypes import Vector3
+            ev = LLSDMessageSerializer().serialize(Message(
+                "CrossedRegion", Block("AgentData", AgentID=UUID(int=3001), SessionID=UUID(int=1001)),
+                Block("RegionData", SimIP=ADDRS[x][0], SimPort=ADDRS[x][1], RegionHandle=_handle(x), SeedCapability=SEEDS[x]),
+                Block("Info", Position=Vector3(128.0, 64.0, 25.5), LookAt=Vector3(1.0, 0.0, 0.0))), True)
+        elif k == "hr":
+            # looks like a TeleportFinish, but its U32 fields are plain LLSD integers (as some third-party grids send
+            # them): the proxy's own handling of this event raises
+            ev = {"message": "TeleportFinish", "body": {"Info": [{
+                "AgentID": UUID(int=3001), "LocationID": 4, "SimIP": struct.pack(">BBBB", 127, 0, 0, 9), "SimPort": 13009,
+                "RegionHandle": struct.pack(">Q", _handle(9)), "SeedCapability": "https://sim9.test:12043/cap/seed-0009",
+                "SimAccess": 13, "TeleportFlags": 1 << 4}]}}
         elif k == "TF":
             ev = LLSDMessageSerializer().serialize(Message(
                 "TeleportFinish", Block("Info", AgentID=UUID(int=3001), LocationID=4, SimIP=ADDRS[x][0], SimPort=ADDRS[x][1],
@@ -370,9 +385,11 @@ def run(chk: Check):
         "that was outstanding at teardown",
         "events are identified by an extra key on the event map, which the proxy hands through untouched",
         "every event map has a 'message' and a 'body' key (the body may be undef)",
+        "a response the proxy gives up rewriting (its handling of an event raised) reaches the viewer untouched and is not "
+        "remembered for replay (the unchanged code's outcome, taken as the specification's); such a response is not lost",
     ]
     if chk.tier == "quick":
-        _b1(chk, dict(MaxEv=4, MaxInj=2, MaxDown=1, Batches="1,2,3,4,5,6,7,8", Depth=7), "ev4-d7", 8000)
+        _b1(chk, dict(MaxEv=4, MaxInj=2, MaxDown=1, Batches="1,2,3,4,5,6,7,8,9,10,11", Depth=7), "ev4-d7", 8000)
     else:
-        _b1(chk, dict(MaxEv=5, MaxInj=2, MaxDown=1, Batches="1,2,3,4,5,6,7,8", Depth=9), "ev5-d9", 60000)
+        _b1(chk, dict(MaxEv=5, MaxInj=2, MaxDown=1, Batches="1,2,3,4,5,6,7,8,9,10,11", Depth=9), "ev5-d9", 60000)
     chk.cov["exhaustive"] = True
